@@ -13,6 +13,7 @@ Property theorems.  Three layers:
       `interp_inv_preserved`, and the witness of finding F24 `stack_history_dependence_witness`.
 -/
 import Wz.Gen.CallEngine
+import Wz.Proofs.ExitCodeIndex
 import Wz.Proofs.C06_CallEngine
 import Wz.Proofs.C06_Calls
 import Wz.Gen.Cleanup
@@ -102,28 +103,8 @@ theorem trap_kind_correct (k : TrapKind) : lookup (trapExitCode k) = some (.pani
 (all indices below 2^24; `ExitCodeMask = 0xff`). About the regenerated definitions. -/
 theorem exitcode_roundtrip (i : BitVec 64) (l : Bool) (h : i.toNat < 2 ^ 24) :
     Wz.Gen.CallEngine.GoFunctionIndexFromExitCode (Wz.Gen.CallEngine.ExitCodeCallGoFunctionWithIndex i l) = i ∧
-    Wz.Gen.CallEngine.GoFunctionIndexFromExitCode (Wz.Gen.CallEngine.ExitCodeCallGoModuleFunctionWithIndex i l) = i := by
-  unfold Wz.Gen.CallEngine.GoFunctionIndexFromExitCode Wz.Gen.CallEngine.ExitCodeCallGoFunctionWithIndex
-    Wz.Gen.CallEngine.ExitCodeCallGoModuleFunctionWithIndex
-  cases l <;> simp only [Bool.false_eq_true, if_false, if_true] <;> constructor <;>
-    (apply BitVec.eq_of_toNat_eq
-     simp only [BitVec.toNat_setWidth, BitVec.toNat_ushiftRight, BitVec.toNat_or, BitVec.toNat_shiftLeft,
-       BitVec.toNat_ofNat, Nat.shiftRight_eq_div_pow, Nat.shiftLeft_eq]
-     have e1 : i.toNat * 2 ^ 8 % 2 ^ 64 % 2 ^ 32 = i.toNat * 256 := by omega
-     rw [e1]
-     first
-       | (have e2 : (17 % 2 ^ 32 ||| i.toNat * 256) = i.toNat * 256 + 17 := by
-            rw [Nat.mul_comm, show (256 : Nat) = 2 ^ 8 from rfl, Nat.or_comm]; exact (Nat.two_pow_add_eq_or_of_lt (by omega) _).symm
-          rw [e2]; omega)
-       | (have e2 : (6 % 2 ^ 32 ||| i.toNat * 256) = i.toNat * 256 + 6 := by
-            rw [Nat.mul_comm, show (256 : Nat) = 2 ^ 8 from rfl, Nat.or_comm]; exact (Nat.two_pow_add_eq_or_of_lt (by omega) _).symm
-          rw [e2]; omega)
-       | (have e2 : (16 % 2 ^ 32 ||| i.toNat * 256) = i.toNat * 256 + 16 := by
-            rw [Nat.mul_comm, show (256 : Nat) = 2 ^ 8 from rfl, Nat.or_comm]; exact (Nat.two_pow_add_eq_or_of_lt (by omega) _).symm
-          rw [e2]; omega)
-       | (have e2 : (5 % 2 ^ 32 ||| i.toNat * 256) = i.toNat * 256 + 5 := by
-            rw [Nat.mul_comm, show (256 : Nat) = 2 ^ 8 from rfl, Nat.or_comm]; exact (Nat.two_pow_add_eq_or_of_lt (by omega) _).symm
-          rw [e2]; omega))
+    Wz.Gen.CallEngine.GoFunctionIndexFromExitCode (Wz.Gen.CallEngine.ExitCodeCallGoModuleFunctionWithIndex i l) = i :=
+  Wz.Proofs.ExitCode.roundtrip i l h
 
 /-! ## (2) reference semantics: effects persist, other instances untouched -/
 
